@@ -135,6 +135,7 @@ package engine
 // bound tree, so it accepts exactly the syntactically identical trees), starting from empty data.
 //@ func (m MetavarMatcher) Match(got, d, r) (d1, ok)
 //@   requires m.TypeMatches != nil
+//@   requires typing: compileEnvOK()
 //@   requires typing: dmap(d)[mvKey(m.Name)] != nil ==> storedMatcher(dmap(d)[mvKey(m.Name)]) != nil
 //@   unfold MatchOK(boxed(m), got, dmap(d), r) == (kindOK(m.TypeMatches, rtype(got)) && (dmap(d)[mvKey(m.Name)] != nil ==> MatchOK(storedMatcher(dmap(d)[mvKey(m.Name)]), got, emptyMap(), r)))
 //@   unfold MatchD(boxed(m), got, dmap(d), r) == ite(dmap(d)[mvKey(m.Name)] != nil, dmap(d), store(dmap(d), mvKey(m.Name), captured(m.Fset, got, r)))
@@ -159,16 +160,28 @@ package engine
 //@   inline
 //@ func newReplacerCompiler
 //@   inline
+// The dispatcher of the '-' side (Level 2): which matcher kind a pattern value is compiled to. Comments and
+// object links never take part in a match, positions are compared by validity, identifiers may be
+// metavariables, statement / expression / field lists may contain elisions, everything else is compiled
+// structurally. The recursion descends into strictly smaller pattern trees.
 //@ func (c *matcherCompiler) compile(v) (m)
-//@   trusted compile-side summary (recursive reflection walk over the pattern); see DESIGN: Level 2
+//@   requires typing: compileEnvOK()
+//@   decreases 8 * rvSize(v) + 7
 //@   assigns c.dots, elems(c.dots)
 //@   ensures m != nil
-//@   ensures c.meta == nil ==> m == compiledM(c.fset, v, c.patchStart, c.patchEnd)
-//@   ensures [C02] c.meta == nil ==> forall w RV, rr S_engine_Region {MatchOK(m, w, emptyMap(), rr)} :: MatchOK(m, w, emptyMap(), rr) == EqTree(v, w)
+//@   ensures c.dots.arr == old(c.dots.arr) || fresh(c.dots.arr)
+//@   ensures [C01,C02] compiling-is-a-function-of-the-pattern: m == cM(c.fset, c.meta, v, c.patchStart, c.patchEnd)
+//@   unfold-post cM(c.fset, c.meta, v, c.patchStart, c.patchEnd) == m
+//@   ensures [C01] comments-never-take-part-in-a-match: rtype(v) == global("github.com/uber-go/gopatch/internal/goast.CommentGroupPtrType") ==> m == global("github.com/uber-go/gopatch/internal/engine.successMatcher")
+//@   ensures [C01] object-links-never-take-part-in-a-match: rtype(v) == global("github.com/uber-go/gopatch/internal/goast.ObjectPtrType") ==> m == global("github.com/uber-go/gopatch/internal/engine.successMatcher")
+//@   ensures [C01,C02] positions-are-compared-by-validity: rtype(v) == global("github.com/uber-go/gopatch/internal/goast.PosType") ==> m == boxed(mk("github.com/uber-go/gopatch/internal/engine.PosMatcher", c.fset, rvIface(v).val))
+//@   ensures-assumed c.meta == nil ==> m == compiledM(c.fset, v, c.patchStart, c.patchEnd)
+//@   ensures-assumed [C02] c.meta == nil ==> forall w RV, rr S_engine_Region {MatchOK(m, w, emptyMap(), rr)} :: MatchOK(m, w, emptyMap(), rr) == EqTree(v, w)
 //@ func (c *replacerCompiler) compile(v) (m)
 //@   trusted compile-side summary
 //@   assigns c.dots, elems(c.dots)
 //@   ensures m != nil
+//@   ensures c.dots.arr == old(c.dots.arr) || fresh(c.dots.arr)
 //@   ensures c.meta == nil ==> m == compiledR(c.fset, v, c.patchStart, c.patchEnd)
 
 // ---- elision (C04) ---------------------------------------------------------------------------------
@@ -365,16 +378,126 @@ package engine
 
 // An identifier of the '-' pattern: a declared metavariable becomes a MetavarMatcher of its kind,
 // anything else (including an absent identifier) is matched as ordinary code.
+// Structural compilation (Level 2): a pattern value is compiled by kind - pointer, interface, list and
+// struct recursively (every element / field, in order), anything else as the scalar itself; AST nodes are
+// additionally wrapped so that the region narrows to the node.
 //@ func (c *matcherCompiler) compileGeneric(v) (m)
-//@   trusted compile-side summary (recursive reflection walk over the pattern); see DESIGN: Level 2
+//@   requires typing: compileEnvOK()
+//@   decreases 8 * rvSize(v) + 5
 //@   assigns c.dots, elems(c.dots)
 //@   ensures m != nil
+//@   ensures c.dots.arr == old(c.dots.arr) || fresh(c.dots.arr)
+//@   ensures [C01] ast-nodes-are-wrapped: timplements(rtype(v), global("github.com/uber-go/gopatch/internal/goast.NodeType")) ==> m.typ == dyn("github.com/uber-go/gopatch/internal/engine.GenericNodeMatcher")
+//@   ensures [C01] scalars-are-matched-verbatim: kind(v) != 22 && kind(v) != 23 && kind(v) != 25 && kind(v) != 20 ==> innerM(m, v) == boxed(mk("github.com/uber-go/gopatch/internal/engine.ValueMatcher", rtype(v), rvIface(v)))
+//@   ensures [C01] pointers: kind(v) == 22 ==> innerM(m, v) == ite(risnil(v), global("github.com/uber-go/gopatch/internal/engine.nilMatcher"), boxed(mk("github.com/uber-go/gopatch/internal/engine.PtrMatcher", cM(c.fset, c.meta, relem(v), c.patchStart, c.patchEnd))))
+//@   ensures [C01] interfaces: kind(v) == 20 ==> innerM(m, v) == ite(risnil(v), global("github.com/uber-go/gopatch/internal/engine.nilMatcher"), boxed(mk("github.com/uber-go/gopatch/internal/engine.InterfaceMatcher", cM(c.fset, c.meta, relem(v), c.patchStart, c.patchEnd))))
+//@   ensures [C01] lists: kind(v) == 23 && !risnil(v) ==> innerM(m, v).typ == dyn("github.com/uber-go/gopatch/internal/engine.SliceMatcher") && len(unbox(innerM(m, v), "S_engine_SliceMatcher").Items) == rlen(v) && forall j int {unbox(innerM(m, v), "S_engine_SliceMatcher").Items[j]} :: 0 <= j && j < rlen(v) ==> unbox(innerM(m, v), "S_engine_SliceMatcher").Items[j] == cM(c.fset, c.meta, idx(v, j), c.patchStart, c.patchEnd)
+//@   ensures [C01] nil-lists: kind(v) == 23 && risnil(v) ==> innerM(m, v) == global("github.com/uber-go/gopatch/internal/engine.nilMatcher")
+//@   ensures [C01] structs: kind(v) == 25 ==> innerM(m, v).typ == dyn("github.com/uber-go/gopatch/internal/engine.StructMatcher") && unbox(innerM(m, v), "S_engine_StructMatcher").Type == rtype(v) && len(unbox(innerM(m, v), "S_engine_StructMatcher").Fields) == numfield(rtype(v)) && forall j int {unbox(innerM(m, v), "S_engine_StructMatcher").Fields[j]} :: 0 <= j && j < numfield(rtype(v)) ==> unbox(innerM(m, v), "S_engine_StructMatcher").Fields[j] == cM(c.fset, c.meta, fld(v, j), c.patchStart, c.patchEnd)
 
-//@ func (c *matcherCompiler) compileIdent(v) (m)
-//@   requires typing: rvIface(v).typ == dyn("*go/ast.Ident")
-//@   requires typing: global("github.com/uber-go/gopatch/internal/engine.nilMatcher") != nil
+//@ func (c *matcherCompiler) compileGeneric$1
+//@   inline
+
+//@ func (c *matcherCompiler) compilePtr(v) (m)
+//@   requires typing: compileEnvOK()
+//@   decreases 8 * rvSize(v) + 4
 //@   assigns c.dots, elems(c.dots)
 //@   ensures m != nil
+//@   ensures c.dots.arr == old(c.dots.arr) || fresh(c.dots.arr)
+//@   ensures [C01] nil-pointer-pattern-matches-only-nil: risnil(v) ==> m == global("github.com/uber-go/gopatch/internal/engine.nilMatcher")
+//@   ensures [C01] pointer-to-the-compiled-target: !risnil(v) ==> m == boxed(mk("github.com/uber-go/gopatch/internal/engine.PtrMatcher", cM(c.fset, c.meta, relem(v), c.patchStart, c.patchEnd)))
+
+//@ func (c *matcherCompiler) compileInterface(v) (m)
+//@   requires typing: compileEnvOK()
+//@   decreases 8 * rvSize(v) + 4
+//@   assigns c.dots, elems(c.dots)
+//@   ensures m != nil
+//@   ensures c.dots.arr == old(c.dots.arr) || fresh(c.dots.arr)
+//@   ensures [C01] nil-interface-pattern-matches-only-nil: risnil(v) ==> m == global("github.com/uber-go/gopatch/internal/engine.nilMatcher")
+//@   ensures [C01] interface-holding-the-compiled-value: !risnil(v) ==> m == boxed(mk("github.com/uber-go/gopatch/internal/engine.InterfaceMatcher", cM(c.fset, c.meta, relem(v), c.patchStart, c.patchEnd)))
+
+//@ func (c *matcherCompiler) compileSlice(v) (m)
+//@   requires typing: compileEnvOK()
+//@   decreases 8 * rvSize(v) + 4
+//@   assigns c.dots, elems(c.dots)
+//@   ensures m != nil
+//@   ensures c.dots.arr == old(c.dots.arr) || fresh(c.dots.arr)
+//@   ensures [C01] nil-list-pattern-matches-only-nil: risnil(v) ==> m == global("github.com/uber-go/gopatch/internal/engine.nilMatcher")
+//@   ensures [C01] one-matcher-per-element-in-order: !risnil(v) ==> m.typ == dyn("github.com/uber-go/gopatch/internal/engine.SliceMatcher") && len(unbox(m, "S_engine_SliceMatcher").Items) == rlen(v) && forall j int {unbox(m, "S_engine_SliceMatcher").Items[j]} :: 0 <= j && j < rlen(v) ==> unbox(m, "S_engine_SliceMatcher").Items[j] == cM(c.fset, c.meta, idx(v, j), c.patchStart, c.patchEnd)
+//@   loop 0
+//@     invariant 0 <= i && len(matchers) == rlen(v) && fresh(matchers.arr)
+//@     invariant c.dots.arr == old(c.dots.arr) || fresh(c.dots.arr)
+//@     invariant forall j int {matchers[j]} :: 0 <= j && j < i ==> matchers[j] == cM(c.fset, c.meta, idx(v, j), c.patchStart, c.patchEnd)
+//@     decreases rlen(v) - i
+
+//@ func (c *matcherCompiler) compileStruct(v) (m)
+//@   requires typing: compileEnvOK()
+//@   decreases 8 * rvSize(v) + 4
+//@   assigns c.dots, elems(c.dots)
+//@   ensures m != nil
+//@   ensures c.dots.arr == old(c.dots.arr) || fresh(c.dots.arr)
+//@   ensures [C01] one-matcher-per-field-in-order: m.typ == dyn("github.com/uber-go/gopatch/internal/engine.StructMatcher") && unbox(m, "S_engine_StructMatcher").Type == rtype(v) && len(unbox(m, "S_engine_StructMatcher").Fields) == numfield(rtype(v)) && forall j int {unbox(m, "S_engine_StructMatcher").Fields[j]} :: 0 <= j && j < numfield(rtype(v)) ==> unbox(m, "S_engine_StructMatcher").Fields[j] == cM(c.fset, c.meta, fld(v, j), c.patchStart, c.patchEnd)
+//@   loop 0
+//@     invariant 0 <= i && len(fields) == numfield(rtype(v)) && fresh(fields.arr)
+//@     invariant c.dots.arr == old(c.dots.arr) || fresh(c.dots.arr)
+//@     invariant forall j int {fields[j]} :: 0 <= j && j < i ==> fields[j] == cM(c.fset, c.meta, fld(v, j), c.patchStart, c.patchEnd)
+//@     decreases numfield(rtype(v)) - i
+
+// The elision test handed to compileSliceDots (one per list kind).
+//@ func funcval:#isDots(n) (r)
+//@   ensures r == isDotsElem(self, n)
+//@   assigns nothing
+
+// Lists that may contain elisions (C04): every element that is not an elision is compiled, in order;
+// each elision closes a section. Without elisions the list is an ordinary list pattern.
+//@ func (c *matcherCompiler) compileSliceDots(items, isDots) (m)
+//@   requires typing: compileEnvOK()
+//@   requires typing: isDots != nil
+//@   decreases 8 * rvSize(items) + 6
+//@   assigns c.dots, elems(c.dots)
+//@   ensures m != nil
+//@   ensures c.dots.arr == old(c.dots.arr) || fresh(c.dots.arr)
+//@   unfold dotsBefore(isDots, items, 0) == 0
+//@   ensures [C04] without-elision-an-ordinary-list-pattern: dotsBefore(isDots, items, rlen(items)) == 0 ==> m.typ == dyn("github.com/uber-go/gopatch/internal/engine.SliceMatcher") && len(unbox(m, "S_engine_SliceMatcher").Items) == rlen(items) && forall j int {unbox(m, "S_engine_SliceMatcher").Items[j]} :: 0 <= j && j < rlen(items) ==> unbox(m, "S_engine_SliceMatcher").Items[j] == cM(c.fset, c.meta, idx(items, j), c.patchStart, c.patchEnd)
+//@   ensures [C04] one-section-more-than-elisions: dotsBefore(isDots, items, rlen(items)) > 0 ==> m.typ == dyn("github.com/uber-go/gopatch/internal/engine.SliceDotsMatcher") && len(unbox(m, "S_engine_SliceDotsMatcher").Sections) == dotsBefore(isDots, items, rlen(items)) + 1 && len(unbox(m, "S_engine_SliceDotsMatcher").Dots) == dotsBefore(isDots, items, rlen(items))
+//@   loop 0
+//@     unfold dotsBefore(isDots, items, i + 1) == dotsBefore(isDots, items, i) + ite(implements(rvIface(idx(items, i)), "go/ast.Node") && isDotsElem(isDots, rvIface(idx(items, i))), 1, 0)
+//@     invariant 0 <= i && i <= rlen(items)
+//@     invariant c.dots.arr == old(c.dots.arr) || fresh(c.dots.arr)
+//@     invariant sections.arr == 0 || fresh(sections.arr)
+//@     invariant current.arr == 0 || fresh(current.arr)
+//@     invariant dots.arr == 0 || fresh(dots.arr)
+//@     invariant [C04] len(sections) == dotsBefore(isDots, items, i) && len(dots) == dotsBefore(isDots, items, i) && dotsBefore(isDots, items, i) >= 0
+//@     invariant [C04] the-open-section-holds-the-elements-since-the-last-elision: len(current) <= i && forall j int {current[j]} :: 0 <= j && j < len(current) ==> current[j] == cM(c.fset, c.meta, idx(items, i - len(current) + j), c.patchStart, c.patchEnd)
+//@     invariant [C04] dotsBefore(isDots, items, i) == 0 ==> len(current) == i
+//@     decreases rlen(items) - i
+
+// `for ... { body }` (no init, no post, the condition an elision) matches any for / range statement
+// whose body matches; every other for statement is compiled structurally.
+//@ func (c *matcherCompiler) compileForStmt(v) (m)
+//@   requires typing: compileEnvOK()
+//@   requires typing: rvIface(v).typ == dyn("*go/ast.ForStmt") && rvIface(v).val != nil
+//@   requires typing: rvSize(rvOf(boxed(as("*go/ast.ForStmt", rvIface(v).val).Body))) < rvSize(v)
+//@   decreases 8 * rvSize(v) + 6
+//@   assigns c.dots, elems(c.dots)
+//@   ensures m != nil
+//@   ensures c.dots.arr == old(c.dots.arr) || fresh(c.dots.arr)
+//@   at call (*engine.matcherCompiler).compileGeneric assert [C04] only-a-bare-elision-header-is-special: arg1 == v && (as("*go/ast.ForStmt", rvIface(v).val).Cond.typ != dyn("*github.com/uber-go/gopatch/internal/pgo.Dots") || as("*go/ast.ForStmt", rvIface(v).val).Init != nil || as("*go/ast.ForStmt", rvIface(v).val).Post != nil)
+//@   at call (*engine.matcherCompiler).compile assert [C04] the-body-is-compiled: arg1 == rvOf(boxed(as("*go/ast.ForStmt", rvIface(v).val).Body))
+
+// An identifier of the '-' pattern: a declared metavariable becomes a MetavarMatcher of its kind (C02),
+// anything else (including an absent identifier) is matched as ordinary code.
+//@ func (c *matcherCompiler) compileIdent(v) (m)
+//@   requires typing: compileEnvOK()
+//@   requires typing: rvIface(v).typ == dyn("*go/ast.Ident")
+//@   decreases 8 * rvSize(v) + 6
+//@   assigns c.dots, elems(c.dots)
+//@   ensures m != nil
+//@   ensures c.dots.arr == old(c.dots.arr) || fresh(c.dots.arr)
+//@   ensures [C02] absent-identifier-matches-only-absence: rvIface(v).val == nil ==> m == global("github.com/uber-go/gopatch/internal/engine.nilMatcher")
+//@   ensures [C02] identifier-metavariable: rvIface(v).val != nil && lookupVar(c.meta, as("*go/ast.Ident", rvIface(v).val).Name) == const("github.com/uber-go/gopatch/internal/engine.IdentMetavarType") ==> m == boxed(mk("github.com/uber-go/gopatch/internal/engine.MetavarMatcher", c.fset, as("*go/ast.Ident", rvIface(v).val).Name, fn("github.com/uber-go/gopatch/internal/engine.isIdent")))
+//@   ensures [C02] expression-metavariable: rvIface(v).val != nil && lookupVar(c.meta, as("*go/ast.Ident", rvIface(v).val).Name) == const("github.com/uber-go/gopatch/internal/engine.ExprMetavarType") ==> m == boxed(mk("github.com/uber-go/gopatch/internal/engine.MetavarMatcher", c.fset, as("*go/ast.Ident", rvIface(v).val).Name, fn("github.com/uber-go/gopatch/internal/engine.isExpression")))
+//@   at call (*engine.matcherCompiler).compileGeneric assert [C02] undeclared-names-are-ordinary-code: lookupVar(c.meta, as("*go/ast.Ident", rvIface(v).val).Name) != const("github.com/uber-go/gopatch/internal/engine.IdentMetavarType") && lookupVar(c.meta, as("*go/ast.Ident", rvIface(v).val).Name) != const("github.com/uber-go/gopatch/internal/engine.ExprMetavarType") && arg1 == v
 
 // ---- replacers (C03, C05, C08) ------------------------------------------------------------------------
 //
